@@ -7,6 +7,7 @@ import (
 	"reflect"
 	"sort"
 	"strings"
+	"time"
 	"unicode/utf8"
 
 	cedar "github.com/cedar-policy/cedar-go"
@@ -506,8 +507,9 @@ func containers() *core.Family {
 
 func Check() *core.Check {
 	return &core.Check{
-		ID:    "C08",
-		Title: "Cedar text marshalling round-trips every policy",
+		ID:        "C08",
+		HangAfter: 120 * time.Second, // cases take at most seconds (max_case_s in the evidence); see core.Family.HangAfter
+		Title:     "Cedar text marshalling round-trips every policy",
 		Rule: "bounded-exhaustive: every operator form over every value of the boundary universe in ast.Value position (negative longs, extension values, sets, records with keyword/empty/control/non-ASCII keys), all depth-2 pairings, all scope/annotation heads, and EVERY Unicode scalar value in every string position; MarshalCedar output must parse, keep effect/annotations/scope, evaluate identically in 6 environments (same value or both fail) and be a byte fixpoint; lists, sets (>=11 policies) and Encoder->Decoder keep content and documented order; " +
 			"every executed case is non-trivial (distinct policy)",
 		Assumptions: []string{"meaning is compared with x/exp/eval.Eval on the condition bodies (conformance is C01)", "unknown extension names and receiver-less method calls are not expressible in Cedar text (C10 covers that encoders do not panic on them)"},
